@@ -247,6 +247,105 @@ def thorough_verus(root, repo, name, cfg, text, work, r):
 
 
 # --------------------------------------------------------------------------------------------
+# native units: the real functions, extracted verbatim, compiled with rustc and run (bounded exhaustive
+# search + replay of failing inputs).  Always labelled bounded; also the counterexample source for a
+# Verus unit whose proof fails.
+# --------------------------------------------------------------------------------------------
+def build_native(root, repo, name, work):
+    udir = os.path.join(root, "units", name, "native")
+    os.makedirs(work, exist_ok=True)
+    u = unitmod.Unit(udir, repo)
+    text = u.assemble()
+    src = os.path.join(work, name + "_native.rs")
+    open(src, "w").write(text)
+    exe = os.path.join(work, name + "_native")
+    p = subprocess.run(["rustc", "-O", "--edition", "2021", "-A", "warnings", src, "-o", exe], capture_output=True, text=True, timeout=300)
+    if p.returncode != 0:
+        raise rsx.Drift("native build failed: " + p.stderr[-800:])
+    return exe, u
+
+
+def run_native_unit(root, repo, us, prop, tier, seed, work):
+    name = us["name"]
+    cfg = load_json(os.path.join(root, "units", name, "native", "unit.json"))
+    r = dict(unit="native/" + name, kind="native", status="undecided", reason="", failed=[], obligations=0, discharged=0,
+             functions=cfg.get("functions", []), assumptions=[], notes=[], bounded=True, bounds="", wall_s=0.0,
+             solver_ms=0, cfg=cfg, checker_cmd="", samples=[], guards={}, evaluations=0, distinct_nontrivial=0)
+    t0 = time.time()
+    try:
+        exe, u = build_native(root, repo, name, work)
+    except rsx.Drift as d:
+        r["reason"] = "native extraction/build: %s" % d
+        return r
+    args = cfg["search_args_thorough"] if tier == "thorough" else cfg["search_args"]
+    r["bounds"] = cfg["bounds_thorough"] if tier == "thorough" else cfg["bounds"]
+    r["checker_cmd"] = "rustc -O <extracted real functions + driver> && ./%s_native %s" % (name, " ".join(args))
+    try:
+        p = subprocess.run([exe] + args, capture_output=True, text=True, timeout=cfg.get("timeout_s", 600))
+    except subprocess.TimeoutExpired:
+        r["reason"] = "native search timed out"
+        return r
+    out = p.stdout
+    m = re.search(r"searched (\d+) sets", out)
+    mc = re.search(r"checked (\d+) sets", out)
+    n = int(m.group(1)) if m else (int(mc.group(1)) if mc else 0)
+    r["evaluations"] = n
+    r["distinct_nontrivial"] = n
+    r["obligations"] = n
+    fi = re.search(r"FAILING-INPUT: (.*)", out)
+    if fi:
+        arg = re.search(r"REPLAY-ARG: (.*)", out)
+        r["discharged"] = max(0, n - 1)
+        r["status"] = "fail"
+        r["failed"].append(dict(id="native/%s:%s" % (name, cfg.get("obligation", "contract")), function=cfg.get("obligation", ""),
+                                message=fi.group(1), clause="", tags=cfg.get("tags", []), output=out[-2000:],
+                                counterexample=fi.group(1),
+                                replay_native=dict(unit=name, arg=arg.group(1).strip() if arg else "")))
+    elif p.returncode == 0 and n > 0:
+        r["discharged"] = n
+        r["status"] = "pass"
+    else:
+        r["reason"] = "native search gave no result: " + (out + p.stderr)[-400:]
+    r["samples"] = [dict(obligation=out.strip().splitlines()[-1] if out.strip() else "", ms=int((time.time() - t0) * 1000))]
+    r["function_sources"] = {k: dict(file=m_["origin"], line=m_["line"], sha256_16=m_["sha"]) for k, m_ in u.fn_meta.items()}
+    r["wall_s"] = time.time() - t0
+    return r
+
+
+def native_counterexample(root, repo, name, work):
+    """Search a failing input for a Verus unit that failed (time-boxed)."""
+    try:
+        cfg = load_json(os.path.join(root, "units", name, "native", "unit.json"))
+        exe, _ = build_native(root, repo, name, work)
+        p = subprocess.run([exe] + cfg["search_args_thorough"], capture_output=True, text=True, timeout=120)
+        fi = re.search(r"FAILING-INPUT: (.*)", p.stdout)
+        arg = re.search(r"REPLAY-ARG: (.*)", p.stdout)
+        if fi:
+            return fi.group(1), dict(unit=name, arg=arg.group(1).strip() if arg else "")
+    except Exception as e:  # noqa
+        return None, None
+    return None, None
+
+
+def replay_native(root, repo, d):
+    rn = d["replay_native"]
+    work = os.path.join(root, "work", "replay-%d" % os.getpid())
+    try:
+        exe, _ = build_native(root, repo, rn["unit"], work)
+        p = subprocess.run([exe, "replay", rn["arg"]], capture_output=True, text=True, timeout=120)
+        print(p.stdout.strip())
+        if "FAILING-INPUT" in p.stdout:
+            print("REPLAY: the failing input reproduces on the real code")
+            return 1
+        return 0 if p.returncode == 0 else 2
+    except rsx.Drift as e:
+        print("replay could not be built: %s" % e)
+        return 2
+    finally:
+        shutil.rmtree(work, ignore_errors=True)
+
+
+# --------------------------------------------------------------------------------------------
 # property level
 # --------------------------------------------------------------------------------------------
 def check_property(root, repo, prop, tier, seed, keep=False):
@@ -265,10 +364,20 @@ def check_property(root, repo, prop, tier, seed, keep=False):
             continue
         if us["kind"] == "verus":
             results.append(run_verus_unit(root, repo, us["name"], tier, seed, os.path.join(work, us["name"])))
+        elif us["kind"] == "native":
+            results.append(run_native_unit(root, repo, us, prop, tier, seed, os.path.join(work, "native_" + us["name"])))
         elif us["kind"] == "kani":
             results.append(kani_run.run_kani_unit(root, repo, us, prop, tier, seed, os.path.join(work, "kani_" + us["name"])))
         else:
             raise SystemExit("bad unit kind")
+    for r in results:
+        if r["kind"] == "verus" and r["failed"] and r["cfg"].get("native_cex"):
+            cex, rn = native_counterexample(root, repo, r["unit"], os.path.join(work, "cex_" + r["unit"]))
+            if cex:
+                for f in r["failed"]:
+                    if f.get("function") in r["cfg"]["native_cex"]:
+                        f["counterexample"] = cex
+                        f["replay_native"] = rn
     kf = known_findings(root)
     listed = {(k["prop"], k["id"]): k for k in kf if k["kind"] == "finding"}
     relevant, others, known_hit = [], [], []
@@ -295,7 +404,7 @@ def check_property(root, repo, prop, tier, seed, keep=False):
             cex = f.get("counterexample")
             json.dump(dict(property=prop, unit=r["unit"], engine=r["kind"], obligation=f["id"], function=f.get("function"),
                            message=f["message"], clause=f.get("clause", ""), tags=f["tags"],
-                           failing_input=cex, replay_test=f.get("replay_test"),
+                           failing_input=cex, replay_test=f.get("replay_test"), replay_native=f.get("replay_native"),
                            verifier_output=f.get("output", "")[:20000],
                            how_to_replay="./check %s --replay %s" % (prop, rp)), open(rp, "w"), indent=1)
             replay_paths.append(rp)
@@ -379,6 +488,11 @@ def replay(root, repo, prop, path):
     print("replay of %s: obligation %s (%s)" % (prop, d.get("obligation"), d.get("message")))
     if d.get("replay_test"):
         return kani_run.run_replay_test(root, repo, d)
+    if d.get("replay_native"):
+        rc = replay_native(root, repo, d)
+        if rc == 1:
+            print("VIOLATION property=%s replay=%s" % (prop, path))
+        return rc
     print("no failing input was found by the verifier for this obligation; re-running the check that reported it")
     props = load_json(os.path.join(root, "props.json"))
     rc = check_property(root, repo, prop, "quick", 0)
